@@ -18,7 +18,7 @@ import pipelib
 import resolvelib
 from common import Check, LEAN
 
-MODULES = ["NaijaVerif.Props.C07Lex", "NaijaVerif.Props.C07Parse", "NaijaVerif.Props.C07"]
+MODULES = ["NaijaVerif.Props.C07Lex", "NaijaVerif.Props.C07Parse", "NaijaVerif.Props.C07Resolve", "NaijaVerif.Props.C07"]
 RENDER = "NaijaVerif.Props.C07Render"
 
 
